@@ -94,6 +94,7 @@ type lexer struct {
 	data     string
 	p, pe, m int
 	id       string
+	mid      string // identifier at the marked position
 }
 
 // initialize/reset lexer with data string to lex
@@ -105,11 +106,13 @@ func (l *lexer) init(data string) {
 // mark the current lexer position
 func (l *lexer) mark() {
 	l.m = l.p
+	l.mid = l.id
 }
 
 // rewind position to the the previously marked position
 func (l *lexer) rewind() {
 	l.p = l.m
+	l.id = l.mid // the identifier read while peeking ahead must not leak into identifier()
 }
 
 // get the value of an identifier if that's the current token; otherwise, it's undefined
